@@ -573,4 +573,22 @@ def sigHashWork (n : Nat) (chunks : List Nat) : Nat := (feedHashers (List.replic
 /-- octets of a message with `n` one-pass signatures: `n` OPS packets, the data, `n` signature packets -/
 def opsMessageSize (n opsLen sigLen dataLen : Nat) : Nat := n * opsLen + dataLen + n * sigLen
 
+/-! ## 10. ignored packets behind a message — `Message::check_trailing_data`
+
+The body of a trailing Padding / Marker / unassigned non-critical / experimental packet arrives in
+reads of some lengths; before repair D19e they were appended to a `Vec` (`read_to_end`), now they go
+through the fixed buffer of `drain`. -/
+
+/-- octets held after each read when everything is collected -/
+def heldCollected : List Nat → List Nat
+  | [] => []
+  | c :: cs => c :: (heldCollected cs).map (· + c)
+
+/-- octets held after each read of `drain`: one buffer, reused -/
+def heldDrained (reads : List Nat) : List Nat := reads.map (min Gen.drainChunk)
+
+/-- the way the tree does it (the translator reports which) -/
+def heldTrailing (reads : List Nat) : List Nat :=
+  if Gen.fixD19eTrailingPacketsDrained = 1 then heldDrained reads else heldCollected reads
+
 end Rpgp.Resource
